@@ -546,6 +546,11 @@ Context * Context::createChildRuntime(Context& root, uint8_t recursion) const
   Context * runtime = new Context(*this);
   runtime->_fctm = root._fctm;
   runtime->_recursion = recursion;
+  /* the function runs for the given root: a clone must not print to, test the
+   * stop condition of, or outlive, the context the function was compiled in */
+  runtime->_root = &root;
+  runtime->_sout = root._sout;
+  runtime->_serr = root._serr;
   /* copy table of symbols with new empty values */
   runtime->_storage_pool.reserve(_storage_pool.size());
   for (const MemorySlot& e : _storage_pool)
